@@ -263,3 +263,9 @@ def obligations(ctx, cfg):
     ct, cs = CreateTopic(), CreateSubscription(ctx, abandon=False)
     ct.id, cs.id = 'C13.c-ids-topics', 'C13.c-ids-subscriptions'
     return [C13a(), C13parse(), C13walk(), C13d(), ListFn(ctx, 'topics', n), ListFn(ctx, 'subs', n), ListFn(ctx, 'topicsubs', n), ct, cs]
+
+
+def kani_harnesses(cfg):
+    q = cfg['tier'] == 'quick'
+    hs = [{'id': 'K4-paging-new', 'harness': 'k4_paging_new', 'quick': True, 'desc': 'Paging::new/size/to_skip on the compiled code, all usize'}, {'id': 'K4-next-page', 'harness': 'k4_next_page', 'desc': 'next_page_from_slice_result on the compiled code (slices <= 4)'}]
+    return [h for h in hs if not q or h.get('quick')]
